@@ -58,6 +58,11 @@ def gen_cases(rng, tier):
         m2 = dict(model)
         m2["embed"] = [model["embed"][k] for k in perm]
         cases.append({"route": "potable", "model": m2, "style": rng.randrange(1 << 30), "perm": list(perm)})
+  # discontinuities exactly ON rows of grids that are exact in doubles (first / interior / last row): judged strictly
+  for i in range(10 if tier == "quick" else 100):
+    route = ["potable", "cli", "api_class", "potable", "api_legacy"][i % 5]
+    model = spec.exact_boundary_eam(rng, "eam", rng.choice(["setfl", "lammps_eam_alloy"]), "api" if route.startswith("api") else "potable")
+    cases.append({"route": route, "model": model, "style": rng.randrange(1 << 30)})
   return cases
 
 
@@ -129,6 +134,11 @@ def run_case(case, ctx):
   nr, dr, nrho, drho = ref.grids()
   ridx = oracle.sample_rows(nr, rng, 14)
   rhoidx = oracle.sample_rows(nrho, rng, 14)
+  strict = bool(model.get("exact_rows"))
+  if strict:
+    ctx.cls("exact_boundary_on_rows")
+    ridx = sorted(set(ridx) | set(k for k in model["exact_rows"]["r"] if k < nr))
+    rhoidx = sorted(set(rhoidx) | set(k for k in model["exact_rows"]["rho"] if k < nrho))
   if not ref.in_domain([R.F(dr * i) for i in ridx], [R.F(drho * i) for i in rhoidx]):
     ctx.count("out_of_domain")
     return
@@ -158,8 +168,8 @@ def run_case(case, ctx):
   nz = False
   for el in p["elements"]:
     s = el["name"]
-    eamref.check_series(ctx, "embed", el["F"], ref.embed(s), drho, rhoidx, "F[%s] route=%s" % (s, route), fmt="setfl")
-    eamref.check_series(ctx, "density", el["rho"], ref.density(s), dr, ridx, "rho[%s] route=%s" % (s, route), fmt="setfl")
+    eamref.check_series(ctx, "embed", el["F"], ref.embed(s), drho, rhoidx, "F[%s] route=%s" % (s, route), fmt="setfl", strict=strict)
+    eamref.check_series(ctx, "density", el["rho"], ref.density(s), dr, ridx, "rho[%s] route=%s" % (s, route), fmt="setfl", strict=strict)
     nz = nz or any(float(t) != 0.0 for t in el["F"]) or any(float(t) != 0.0 for t in el["rho"])
   order = ref.order
   declared = 0
@@ -171,6 +181,6 @@ def run_case(case, ctx):
       ctx.cls("pair_declared")
     else:
       ctx.cls("pair_zero_filled")
-    eamref.check_series(ctx, "rphi", toks, o, dr, ridx, "r*phi[%s,%s] route=%s" % (a, b, route), scale_r=True, fmt="setfl")
+    eamref.check_series(ctx, "rphi", toks, o, dr, ridx, "r*phi[%s,%s] route=%s" % (a, b, route), scale_r=True, fmt="setfl", strict=strict)
   ctx.count("blocks", 2 * len(order) + len(p["rphi"]))
   ctx.nontrivial(nz and (len(order) >= 2 or declared >= 1))
